@@ -30,9 +30,12 @@ THEOREMS = [
     "Spydr.Eblif.lexB_continuation",
     "Spydr.Eblif.parse_comment_line",
     "Spydr.Eblif.formal_actual",
+    "Spydr.Eblif.formal_actual_net",
+    "Spydr.Eblif.formal_actual_pairs",
     "Spydr.Eblif.conn_merges",
-    "Spydr.Eblif.blackbox_leaf",
+    "Spydr.Eblif.one_instance_per_stmt",
     "Spydr.Eblif.names_latch_shape",
+    "Spydr.Eblif.blackbox_leaf",
     "Spydr.Eblif.eblif_reader_spec_partial",
     "Spydr.Eblif.eblif_roundtrip_partial",
 ]
@@ -308,7 +311,7 @@ def run_case(res, design, text, drv, tmp, opts, origin, do_shrink=True):
     for sig, r in att:
         stage, kind, clause, detail = r
         if kind == "corr":
-            res.corr_mismatch("%s %s" % (stage_kind(stage), clause), x if len(text) < 4000 else {"origin": origin},
+            res.corr_mismatch("%s %s" % (stage_kind(stage), clause), x if len(text) < 4000 else {"origin": origin, "opts": x["opts"]},
                               impl=detail[:600], model=None, signature=sig)
         else:
             if sig in seen:
@@ -359,8 +362,33 @@ def bundled_inputs():
     return out
 
 
-def worker(kind, seed, shard_no, n, tier, payload):
+def neighbours(design, rng, n):
+    """designs near a diverging one: statement deletions, then random designs with the same
+    mechanisms and statement kinds"""
+    import copy
+    out = []
+    for i in range(len(design["stmts"])):
+        d = copy.deepcopy(design)
+        del d["stmts"][i]
+        out.append(d)
+    for i in range(len(design["bbs"])):
+        d = copy.deepcopy(design)
+        d["bbs"][i]["declared"] = not d["bbs"][i]["declared"]
+        out.append(d)
+    hz = tuple(h for h in G.hazards_of(design) if h in ("conn", "inner-comment", "latch-growth", "port-growth", "cname-default"))
+    kinds = set(s["k"] for s in design["stmts"])
+    tries = 0
+    while len(out) < n and tries < 20 * n:
+        tries += 1
+        d = G.gen_design(rng, hazards=hz[:1] if hz and rng.random() < 0.7 else ())
+        if kinds & set(s["k"] for s in d["stmts"]):
+            out.append(d)
+    return out[:n]
+
+
+def worker(kind, seed, shard_no, n, tier, payload, deadline=None):
     import random
+    import time
     res = shard.ShardResult()
     drv = lean.Driver("drv_eblif")
     tmp = tempfile.mkdtemp(prefix="eblif_")
@@ -371,9 +399,22 @@ def worker(kind, seed, shard_no, n, tier, payload):
                 res.case(stable_hash(text), True)
                 tags(res, design, obs1, att)
                 res.dist("origin:" + origin.split(":")[0])
+        elif kind == "search":
+            rng = random.Random(stable_hash([seed, PID, "search", shard_no]))
+            for design in payload:
+                for d in neighbours(design, rng, n):
+                    if deadline and time.time() > deadline:
+                        break
+                    text = L.render(d)
+                    run_case(res, d, text, drv, tmp, OPTS, "search:%d" % shard_no)
+                    res.case(stable_hash(text), nontrivial(d))
+                    res.dist("origin:search")
         else:
             rng = random.Random(stable_hash([seed, PID, "gen", shard_no]))
             for ci in range(n):
+                if deadline and time.time() > deadline:
+                    res.dist("stopped-at-deadline")
+                    break
                 r = rng.random()
                 hz = ()
                 if r < 0.30:
@@ -390,6 +431,21 @@ def worker(kind, seed, shard_no, n, tier, payload):
         drv.close()
         shutil.rmtree(tmp, ignore_errors=True)
     return res
+
+
+def resolve_input(x):
+    """a replay / corpus entry -> (design, text, opts)"""
+    opts = [tuple(o) for o in x.get("opts", OPTS)]
+    if "design" in x:
+        return x["design"], (x.get("text") or L.render(x["design"])), opts
+    origin = x.get("origin", "")
+    if origin.startswith("bundled:"):
+        for name, text in bundled_inputs():
+            if name == origin.split(":", 1)[1]:
+                return L.design_of_text(text), text, opts
+    if "text" in x:
+        return L.design_of_text(x["text"]), x["text"], opts
+    raise RuntimeError("cannot resolve replay input %r" % (x,))
 
 
 def run(ctx):
@@ -416,22 +472,39 @@ def run(ctx):
     if ctx.replay:
         with open(ctx.replay if os.path.isabs(ctx.replay) else os.path.join(ROOT, ctx.replay)) as f:
             j = json.load(f)
-        x = j.get("input", j)
-        inputs.append(("replay", x["design"], x.get("text") or L.render(x["design"]), [tuple(o) for o in x.get("opts", OPTS)]))
+        xs = [j["input"]] if "input" in j else [c["input"] for c in j.get("broken_correspondence", []) if c.get("input")]
+        for x in xs[:5]:
+            d, t, o = resolve_input(x)
+            inputs.append(("replay", d, t, o))
         ctx.merge_shard(worker("inputs", ctx.seed, 0, 0, ctx.tier, inputs))
         return
     for p in sorted(glob.glob(os.path.join(ROOT, "corpus", PID, "*.json"))):
         with open(p) as f:
             j = json.load(f)
-        x = j.get("input", j)
-        inputs.append(("corpus:" + os.path.basename(p), x["design"], x.get("text") or L.render(x["design"]),
-                       [tuple(o) for o in x.get("opts", OPTS)]))
+        d, t, o = resolve_input(j.get("input", j))
+        inputs.append(("corpus:" + os.path.basename(p), d, t, o))
     for name, text in bundled_inputs():
         d = L.design_of_text(text)
         if d is not None:
             inputs.append(("bundled:" + name, d, text, OPTS if ctx.tier == "thorough" or len(text) < 10000 else OPTS[:2]))
+    import time
+    if ctx.tier == "thorough":
+        lean.leanchecker(ctx, MODULES)
     jobs = [("inputs", ctx.seed, 0, 0, ctx.tier, inputs[i::4]) for i in range(4) if inputs[i::4]]
-    nsh = 12
-    per = ctx.scale(45, 900)
-    jobs += [("gen", ctx.seed, s, per, ctx.tier, None) for s in range(nsh)]
+    nsh = 14
+    per = ctx.scale(350, 2500)
+    deadline = time.time() + max(10.0, ctx.time_left() * 0.55)
+    jobs += [("gen", ctx.seed, s, per, ctx.tier, None, deadline) for s in range(nsh)]
     shard.run_shards(ctx, worker, jobs)
+    # a model/implementation divergence that is not explained by a known defect, and no failing
+    # input yet: look for one around the diverging inputs
+    from common import findings
+    open_sigs = set(k["signature"] for k in findings.load() if k["property"] == PID and k.get("status") == "open")
+    div = [c for c in ctx.corr if not (c.get("signature") and c["signature"] in open_sigs)]
+    new_spec = [x for x in ctx.spec if x["signature"] not in open_sigs]
+    if div and not new_spec:
+        designs = [c["input"]["design"] for c in div if isinstance(c.get("input"), dict) and "design" in c["input"]][:8]
+        if designs:
+            dl = time.time() + max(10.0, ctx.time_left() * 0.6)
+            n = ctx.scale(150, 1500)
+            shard.run_shards(ctx, worker, [("search", ctx.seed, i, n, ctx.tier, [d], dl) for i, d in enumerate(designs)])
